@@ -43,6 +43,38 @@ func (w *World) Script(vc *FnVC, o *Obligation, specFns string) string {
 	return b.String()
 }
 
+// RelaxedScript drops every quantified assertion: a weaker set of hypotheses. "unsat"
+// is still a proof; "sat" yields a candidate counterexample for diagnosis and replay.
+func RelaxedScript(script string) string {
+	var b strings.Builder
+	for _, l := range strings.Split(script, "\n") {
+		if strings.HasPrefix(l, "(assert") && !strings.HasPrefix(l, "(assert (not ") &&
+			(strings.Contains(l, "(forall ") || strings.Contains(l, "(exists ") || strings.Contains(l, "(seqeq ")) {
+			continue
+		}
+		b.WriteString(l + "\n")
+	}
+	return b.String()
+}
+
+// SolveObligation: full query, then (if undecided) the relaxed query for a candidate model.
+func SolveObligation(w *World, vc *FnVC, o *Obligation, dir, specFns string, timeout int, all bool) {
+	script := w.Script(vc, o, specFns)
+	o.Result = Solve(dir, sanitize(o.Name), script, timeout, all)
+	if o.Result.Status == "unsat" || o.Result.Status == "sat" {
+		return
+	}
+	r := Solve(dir, sanitize(o.Name)+"_relaxed", RelaxedScript(script), 5, false)
+	switch r.Status {
+	case "unsat":
+		r.Secs += o.Result.Secs
+		o.Result = r
+	case "sat":
+		o.Result.Output += "\n[candidate counterexample from the quantifier-free relaxation, " + r.Solver + "]\n" + firstLines(r.Output, 40)
+		o.Result.Candidate = true
+	}
+}
+
 func solveAll(w *World, vc *FnVC, obls []*Obligation, dir string, timeout int, all bool) {
 	specFns, err := w.RenderSpecFns()
 	if err != nil {
@@ -57,7 +89,7 @@ func solveAll(w *World, vc *FnVC, obls []*Obligation, dir string, timeout int, a
 			defer wg.Done()
 			sem <- struct{}{}
 			defer func() { <-sem }()
-			o.Result = Solve(dir, sanitize(o.Name), w.Script(vc, o, specFns), timeout, all)
+			SolveObligation(w, vc, o, dir, specFns, timeout, all)
 		}(o)
 	}
 	wg.Wait()
@@ -85,7 +117,17 @@ func main() {
 		} else {
 			fmt.Println("queries in", dir)
 		}
-		for _, name := range os.Args[2:] {
+		fargs := os.Args[2:]
+		onlyProp := ""
+		if len(fargs) > 1 && fargs[0] == "-p" {
+			onlyProp = fargs[1]
+			fargs = fargs[2:]
+			props := map[string]*PropConfig{}
+			if err := loadJSON(filepath.Join(verifDir, "props.json"), &props); err == nil && props[onlyProp] != nil {
+				ApplySchemas(w, props[onlyProp].Schemas, onlyProp)
+			}
+		}
+		for _, name := range fargs {
 			fn := w.Fns[name]
 			if fn == nil {
 				fmt.Println("no such function:", name)
@@ -96,14 +138,45 @@ func main() {
 			for _, u := range vc.Unsupported {
 				fmt.Println("   UNSUPPORTED:", u)
 			}
-			solveAll(w, vc, vc.Obls, dir, 10, false)
-			for _, o := range vc.Obls {
+			obls := vc.Obls
+			if onlyProp != "" {
+				obls = nil
+				for _, o := range vc.Obls {
+					if hasProp(o.Props, onlyProp) {
+						obls = append(obls, o)
+					}
+				}
+			}
+			solveAll(w, vc, obls, dir, 10, false)
+			for _, o := range obls {
 				fmt.Printf("   %-8s %-60s %s (%s %.2fs) %s\n", o.Result.Status, o.Name, o.Pos, o.Result.Solver, o.Result.Secs, o.Desc)
 				if o.Result.Status == "sat" {
 					fmt.Println("      model:", strings.ReplaceAll(strings.TrimSpace(strings.SplitN(o.Result.Output, "\n", 2)[1]), "\n", " "))
 				}
 				if o.Result.Status == "error" {
 					fmt.Println("      ", firstLines(o.Result.Output, 6))
+				}
+			}
+			if os.Getenv("ICEVC_VAC") != "" {
+				specFns, _ := w.RenderSpecFns()
+				lo, hi := 0, len(vc.Lines)
+				reach := Solve(dir, "vac_reach", w.vacuityScript(vc, hi, Or(vc.ReachRet...), specFns), 5, false)
+				fmt.Println("   vacuity: some return reachable:", reach.Status, reach.All)
+				full := Solve(dir, "vac_full", w.vacuityScript(vc, hi, True, specFns), 5, false).Status
+				fmt.Println("   vacuity: all lines:", full)
+				if full == "unsat" {
+					for lo < hi {
+						mid := (lo + hi) / 2
+						if Solve(dir, "vac_mid", w.vacuityScript(vc, mid, True, specFns), 5, false).Status == "unsat" {
+							hi = mid
+						} else {
+							lo = mid + 1
+						}
+					}
+					fmt.Println("   first inconsistent prefix ends at line", lo, ":")
+					for i := maxInt(0, lo-6); i < lo && i < len(vc.Lines); i++ {
+						fmt.Println("      ", clip(vc.Lines[i], 400))
+					}
 				}
 			}
 			for _, e := range w.Errors {
